@@ -49,12 +49,15 @@ class Case:
     pass
 
 
+DOCREFS = [True]
+
+
 def gen_case(rng, fault=None, big=False):
     """abstract database: containers, layers, objects with colliding ids / names, references"""
     nK = rng.choice([1, 2, 2, 3])
     nL = rng.choice([2, 3, 4, 5]) if not big else rng.choice([5, 6, 7])
     uid = [100]
-    idpool = [f"i{k}" for k in range(rng.choice([6, 10, 16]))]
+    idpool = [f"i{k}" for k in range(rng.choice([6, 10, 16]) if DOCREFS[0] else 400)]
     names = [1, 2, 3][:rng.choice([2, 3])]
 
     def new(kind, layer, **kw):
@@ -167,7 +170,7 @@ def layer_ids(c, i):
 def doc_styles(c, A, target_layer):
     """DOCREF styles a reference from layer A may carry"""
     out = [None]
-    if target_layer is not None:
+    if target_layer is not None and DOCREFS[0]:
         out += [("C", c.layers[target_layer]["cont"]), ("L", target_layer)]
     return out
 
@@ -368,6 +371,8 @@ def assign_refs(rng, c, fault):
                 tl = c.layers[A]["parents"][k]["target"]
                 idv = f"L{tl}"
             doc = rng.choice(doc_styles(c, A, tl))
+            if slot == "parent" and not DOCREFS[0]:
+                doc = ("C", c.layers[tl]["cont"])     # as the PDX writer emits parent references
             c.last_candidates = []
             r = spec_idref(c, A, idv, doc, exp_id)
             if r is None:
